@@ -184,7 +184,7 @@ def rule_truthful(chk):
     AS = p.fold_global(act, "ACTION_STATUS_FIELD")
     SUCC = p.fold_global(act, "SUCCEEDED_STATUS")
     FAIL = p.fold_global(act, "FAILED_STATUS")
-    params = [a.arg for a in f.node.args.args]
+    params = f.pos_params
     chk.need(len(params) >= 2, "finish has no exception parameter")
     pname = params[1]
     chk.req(not stores_to_name(f, pname), "C03.truthful", "Action.finish:exception-parameter-not-rebound", chk.where(f),
@@ -238,7 +238,7 @@ def rule_propagate(chk):
     ex = ctx.func("_action", "Action.__exit__")
     fin = ctx.func("_action", "Action.finish")
     cfg = ctx.cfg(ex)
-    params = [a.arg for a in ex.node.args.args]
+    params = ex.pos_params
     chk.need(len(params) >= 4, "__exit__ signature changed")
     ename = params[2]
     fcalls = ctx.calls_to(ex, fin)
@@ -293,7 +293,7 @@ def rule_failfields(chk):
     msg = p.mod("_message")
     EX = p.fold_global(msg, "EXCEPTION_FIELD")
     RE = p.fold_global(msg, "REASON_FIELD")
-    pname = [a.arg for a in f.node.args.args][1]
+    pname = f.pos_params[1]
     gf = ctx.func("_errors", "ErrorExtraction.get_fields_for_exception")
     su = ctx.func("_util", "safeunicode")
     from . import c02
@@ -349,7 +349,7 @@ def rule_failfields(chk):
             good="reason = safeunicode(%s)" % pname, fail="reason field is %s" % (v is not None and unparse(v)))
     # success fields only on success; start fields do not reach finish
     st = ctx.func("_action", "Action._start")
-    sparam = [a.arg for a in st.node.args.args][1]
+    sparam = st.pos_params[1]
     leak = []
     for x in iter_own_nodes(st.node):
         if isinstance(x, ast.Assign) and any(common.is_self_attr(t) for t in x.targets) and sparam in {y.id for y in ast.walk(x.value) if isinstance(y, ast.Name)}:
@@ -380,7 +380,7 @@ def _lookup_funcs(chk):
 def rule_mro(chk):
     ctx = chk.ctx
     gf, lookup = _lookup_funcs(chk)
-    ename = [a.arg for a in gf.node.args.args][2]
+    ename = gf.pos_params[2]
     cls_exprs = ("%s.__class__" % ename, "type(%s)" % ename)
     found = []
     for g in lookup:
@@ -412,7 +412,7 @@ def rule_mro(chk):
             ok_arg = txt in cls_exprs
         elif isinstance(arg, ast.Name) and arg.id in g.params and not stores_to_name(g, arg.id):
             # helper: every call site in the lookup functions passes the exception's class
-            idx = [a.arg for a in g.node.args.args].index(arg.id) - 1
+            idx = g.pos_params.index(arg.id) - 1
             sites = [s for h in lookup for s in ctx.cg.sites[h] if g in s.repo_targets() and s.call is not None]
             ok_arg = bool(sites) and all(len(s.call.args) > idx and unparse(s.call.args[idx]) in cls_exprs for s in sites if s.func is gf) \
                 and any(s.func is gf for s in sites)
